@@ -585,6 +585,13 @@ Definition holds_C11 (ops : list op) (tr : trace) : bool := mon_fold step_C11 ms
 (* ================================================================ C12 *)
 Definition any_close_failed (evs : list event) : bool :=
   existsb (fun e => match e with EvClosed _ ok _ => negb ok | _ => false end) evs.
+Definition failed_owners (evs : list event) : list nat :=
+  flat_map (fun e => match e with EvClosed _ false own => [own] | _ => [] end) evs.
+Definition disposal_entries (ms : mstate) (p h : nat) (evs : list event) : nat :=
+  let fo := failed_owners evs in
+  length (filter (Nat.eqb h) fo) +
+  length (filter (fun s => (si_p s =? p) && (si_parent s =? h) && negb (si_h s =? 0) && negb (scope_closed ms p (si_h s))
+                           && existsb (fun own => anc ms p (si_h s) own) fo) (ms_scopes ms)).
 Definition step_C12 (ms : mstate) (o : op) (s : list event * result) : bool :=
   let '(evs, r) := s in
   match o with
@@ -593,7 +600,10 @@ Definition step_C12 (ms : mstate) (o : op) (s : list event * result) : bool :=
       then match evs, r with [], RUnit => true | _, _ => false end
       else match r with
            | RUnit => negb (any_close_failed evs)
-           | RErr (EDisposal _) [] => any_close_failed evs
+           | RErr (EDisposal n) [] =>
+               (* the error aggregates one entry per own instance whose Close failed and one per direct child
+                  scope with a failure somewhere in its subtree (also when that child was closed by its watcher) *)
+               any_close_failed evs && (n =? disposal_entries ms p h evs)
            | _ => false
            end
   | OCloseProvider p _ =>
@@ -710,7 +720,10 @@ Definition step_C17 (ms : mstate) (o : op) (s : list event * result) : bool :=
       (spec_has prs t n || (is_reserved t && (n =? 0)) || (t =? T_NIL) ||
        class_is r ENotFound || disposed_class r)
       && uses_only prs s
-  | OResolveGroup p _ _ _ | OCreateScope p _ _ => uses_only (regs_for ms p) s
+  | OResolveGroup p _ t g =>
+      uses_only (regs_for ms p) s &&
+      match r with RVal (AList l) => group_in_order (regs_for ms p) t g l | _ => true end
+  | OCreateScope p _ _ => uses_only (regs_for ms p) s
   | _ => true
   end.
 Definition holds_C17 (ops : list op) (tr : trace) : bool := mon_fold step_C17 ms_init ops tr.
